@@ -354,9 +354,9 @@ func run(c *hl.Ctx) error {
 		one(c, ctx, s, true, true)
 		c.Count("fixed")
 	}
-	n := c.Pick(400, 30000)
-	nl := c.Pick(60, 3000)
-	ns := c.Pick(20, 600)
+	n := c.Pick(400, 8000)
+	nl := c.Pick(60, 900)
+	ns := c.Pick(20, 250)
 	for i := 0; i < n; i++ {
 		one(c, ctx, genProgram(c, r), i < nl, i < ns)
 	}
